@@ -146,6 +146,27 @@ static void handle(int argc, char **argv) {
         if (cif) cif_destroy(cif);
         for (i = 0; i < n; i++) free(names[i]);
         free(names);
+    } else if (argc >= 4 && !strcmp(argv[1], "deser")) {
+        /* serialise a list value (un-armed), then deserialise the blob onto a fresh value object, as GET_VALUE_PROPS does */
+        cif_value_tp *v, *dest = NULL;
+        buffer_tp *buf = NULL;
+        pos = 2;
+        v = mk(argv, argc, &pos);
+        if (!v || pos != argc - 1 || cif_value_kind(v) != CIF_LIST_KIND) { OUT("bad-op"); cif_value_free(v); return; }
+        if (cif_value_serialize(v, &buf) != CIF_OK || !buf || cif_value_create(CIF_UNK_KIND, &dest) != CIF_OK) { OUT("setup-failed"); cif_value_free(v); return; }
+        verif_arm(0, atol(argv[pos]));
+        ARM(); rc = cif_value_deserialize(buf->for_writing.start, buf->for_writing.limit, dest); DISARM();
+        summary(rc);
+        {
+            char *a = NULL, *b = NULL; size_t sa = 0, sb = 0;
+            FILE *fa = open_memstream(&a, &sa), *fb = open_memstream(&b, &sb);
+            fdump_value(fa, dest); fdump_value(fb, v);       /* dest must be a valid value in any case */
+            fclose(fa); fclose(fb);
+            if (rc == CIF_OK && (!a || !b || strcmp(a, b))) OUT(" !NEWVALUE");
+            free(a); free(b);
+        }
+        free(buf->for_writing.start); free(buf);
+        cif_value_free(dest); cif_value_free(v);
     } else if (argc >= 4 && !strcmp(argv[1], "copychar")) {
         cif_value_tp *v;
         UChar txt[] = { 'n', 'e', 'w', 0 }, *got = NULL;
